@@ -156,9 +156,25 @@ def run_history(res, cfg, scratch, rng):
     prof.getter_probes = True
     try:
         with quiet_stdout():
+            held = []
             for step in range(rng.randint(5, 14)):
                 op = gen_write_op(rng, s.model, prof)
                 pre_model = s.model.copy()
+                if rng.random() < 0.15 and s.model.points:
+                    # an iteration that was started and is kept unfinished while other operations run: starting it is
+                    # a read like any other (nothing appears next to the database, whatever happens to it later)
+                    b0 = w.snap()
+                    it = iter(s.db.measurement(rng.choice(prof.meas)) if rng.random() < 0.3 else s.db)
+                    try:
+                        next(it)
+                    except Exception:  # noqa: BLE001
+                        pass
+                    held.append(it)
+                    a0 = w.snap()
+                    res.count("unfinished_iterations_held")
+                    fake = type("O", (), {"exc": None})()
+                    if not judge_op(res, s, w, {"op": "iter-started-and-kept"}, b0, a0, fake, True, "read"):
+                        return
                 before = w.snap()
                 out = s.do(op)
                 after = w.snap()
@@ -589,6 +605,7 @@ def run(res, tier, seed, shard, nshards):
     res.require("listing_checks_after_raising_call")
     res.require("vanished_file_calls")
     res.require("calls_on_closed_database")
+    res.require("unfinished_iterations_held")
     res.require("bytes_only_appended_checks.buffered")
     res.require("open_read_close.as written")
     res.require("open_read_close.last row unterminated")
